@@ -4,6 +4,26 @@ import json, subprocess
 
 CHECKS = {
  # id: (level, technique, text, note, design_ref)
+ "C02": ("exploration",
+         "bounded exhaustive enumeration of transactions x pre-states x batch positions on the real FSM vs reference model",
+         "Every transaction built from 0..2 of 20 predicates and <=2 operations per branch out of 12 (<=2 in total quick, <=3 thorough), on 8 pre-states and at 4 positions of an apply call, is executed on a real fsm.FSM and compared with the model: branch choice, n-th response for n-th operation, state afterwards; read-only transactions also through the Lookup path. Exhaustive inside that alphabet.",
+         "Trusted: refkv transaction semantics (written from the property text), pebble's atomic batch commit for visibility to concurrent readers (durable atomicity is C04's). Chained execution on a live FSM; failures are re-run alone on a fresh FSM.",
+         "DESIGN.md section 4, C02"),
+ "C03": ("exploration",
+         "differential enumeration: every log x every batching cut x interposed sync/reopen/snapshot transfer on real FSMs",
+         "Every log up to length 3 (quick) / 4 (thorough) over a 16-entry alphabet is applied under ALL 2^(n-1) batchings, and (shorter logs) with Sync, close+reopen and snapshot save/recover (4 format pairs, fresh and stale receiver) interposed at every cut point; results, content, hash, applied and leader index must equal the one-entry-per-call run and the model.",
+         "Trusted: refkv; GetHash as a content digest. Logs beyond the depth and other alphabets are not covered.",
+         "DESIGN.md section 4, C03"),
+ "C09": ("exploration",
+         "bounded exhaustive enumeration of contents x bounds x limits x forms (and value-size orders) vs reference model",
+         "All 64 subsets of 6 keys x 100 bound pairs x every limit 0..n+1 x 3 forms, unary and streamed; every content of up to 3 (quick) / 5 (thorough) pairs with sizes from {1KiB,1MiB,2MiB-1KiB,2MiB} for size cuts, per-message size/flags/counts, and a write between any two pulls of a stream.",
+         "Trusted: refkv range semantics; vtproto SizeVT as the wire size. The KV gRPC layer above the FSM is exercised by C10/C16.",
+         "DESIGN.md section 4, C09"),
+ "C12": ("exploration",
+         "exhaustive enumeration of keys, ordered pairs and triples over a byte alphabet plus boundary lengths",
+         "175 keys (all strings of length 1..3 over {00,01,61,FE,FF} + lengths 1018..1024 in 4 fill patterns): round trip through both decoders, all ordered pairs for injectivity/order, all triples for range membership, and every key through a real FSM with wildcard reads/deletes and bookkeeping intact.",
+         "Trusted: bytes.Compare is the store's order (pebble DefaultComparer). Keys outside the alphabet are not covered.",
+         "DESIGN.md section 4, C12"),
  "C01": ("exploration",
          "bounded exhaustive sequence enumeration on the real FSM vs a sorted-map reference model",
          "Every command sequence up to depth 3 (quick) / 4 (thorough) over a 29-command alphabet on prefix-related keys, under two batchings, plus every range delete x every range read over a 14-key adversarial byte alphabet, is executed on a real fsm.FSM (pebble on a strict in-memory FS) and every result, read and index is compared with a plain sorted map. Exhaustive within the stated alphabet and depth; says nothing beyond them.",
